@@ -45,6 +45,9 @@ CHECKS = {
  'C02': dict(level='exploration', tech='runtime monitor: observer of RadialSolverSolution.result at the surface and at every layer boundary against the prescribed boundary vectors and the interface relations',
              text='Quick: every 1-2 layer stack over {solid,liquid}x{static,dynamic}x{compressible,incompressible} (no dynamic-liquid top) plus 380 sampled 3-5 layer stacks; thorough: every 1-3 layer stack with two material profiles plus 1200 sampled 4-5 layer stacks; random l, frequency and ordered solve_for tuples incl. duplicates; decisive only for converged successful solves.',
              note='Tolerances 1e-5 relative to the natural stress / potential scales (ill-conditioned deep stacks reach 1e-6; real defects are O(1e-3..1)). y7 of static liquid layers is not exposed, so only y5 is checked there; dynamic-liquid top layers crash and belong to C06.', ref='4/C02'),
+ 'C03': dict(level='exploration', tech='runtime monitor: paired-call metamorphic relations on radial_solver (nondimensionalisation, exact rescaling, solve_for arrangement, integrator, nested/uniform grid refinement, Saito-Molodensky), each member guarded by a 100x-tighter-tolerance convergence probe',
+             text='Randomised exploration over 1-4 layer bodies (solid, static-liquid, dynamic-liquid at w>=1e-4), constant and linear profiles defined independently of the grid (analytic enclosed mass), l=2..6, scale factors 1e-2..1e2, integrator pairs; bit-identity demanded for solve_for arrangements; refinement relations are decided by convergence order over 3-4 grid levels.',
+             note='Budget 50 rtol + 10 (delta_a+delta_b); unconverged or failed members make a case inconclusive. One open known finding (first-order interface gap under uniform refinement of multi-layer bodies).', ref='4/C03'),
 }
 NA = []
 def main():
